@@ -363,6 +363,9 @@ func (c *FnCtx) callByKey(st *State, call *ast.CallExpr, key string, sig *types.
 
 // applyCallee: contract application with evaluated arguments.
 func (c *FnCtx) applyCallee(st *State, site ast.Node, key string, sig *types.Signature, recv *Term, recvT types.Type, args []*Term) []*Term {
+	if recv != nil && recvT != nil {
+		key = c.eng.canonicalMethodKey(key, recvT)
+	}
 	ct := c.eng.contracts[key]
 	isRepo := strings.HasPrefix(key, repoPrefix)
 	nres := sig.Results().Len()
@@ -548,9 +551,10 @@ func (c *FnCtx) freshOfType(st *State, hint string, t types.Type) *Term {
 
 // pureApp: library function as an uninterpreted function of (receiver, args).
 func (c *FnCtx) pureApp(st *State, key string, sig *types.Signature, recv *Term, args []*Term) []*Term {
-	// every AST node type implements Pos/End; one observer function for all static types
-	if strings.HasPrefix(key, "go/ast.") && recv != nil && len(args) == 0 && (strings.HasSuffix(key, ".Pos") || strings.HasSuffix(key, ".End")) {
-		key = "go/ast.Node." + lastDot(key)
+	// one observer function per interface method: x.M() on a concrete library type and on an interface value holding
+	// it are the same function (go/ast.Node.Pos, go/types.Object.Name, go/types.Type.Underlying, ...)
+	if recv != nil && recv.GoT != nil {
+		key = c.eng.canonicalMethodKey(key, recv.GoT)
 	}
 	var all []*Term
 	var sorts []string
@@ -656,4 +660,61 @@ func (ct *Contract) nilable(name string) bool {
 		}
 	}
 	return false
+}
+
+// canonicalMethodKey: for a method of a library type, the key of the most general interface of the same package
+// that declares a method of that name and is implemented by the receiver type.
+func (e *Engine) canonicalMethodKey(key string, recvT types.Type) string {
+	if strings.HasPrefix(key, repoPrefix) {
+		return key
+	}
+	ck := key + "|" + types.TypeString(recvT, nil)
+	if e.canon == nil {
+		e.canon = map[string]string{}
+	}
+	if v, ok := e.canon[ck]; ok {
+		return v
+	}
+	res := key
+	method := lastDot(key)
+	on := ownerNamed(recvT)
+	if on != nil && on.Obj().Pkg() != nil {
+		pkg := on.Obj().Pkg()
+		best := ""
+		bestN := 1 << 30
+		for _, name := range pkg.Scope().Names() {
+			tn, ok := pkg.Scope().Lookup(name).(*types.TypeName)
+			if !ok || !tn.Exported() {
+				continue
+			}
+			it, ok := tn.Type().Underlying().(*types.Interface)
+			if !ok || it.NumMethods() == 0 {
+				continue
+			}
+			if _, isNamed := tn.Type().(*types.Named); !isNamed {
+				continue
+			}
+			has := false
+			for i := 0; i < it.NumMethods(); i++ {
+				if it.Method(i).Name() == method {
+					has = true
+				}
+			}
+			if !has {
+				continue
+			}
+			impl := types.Implements(recvT, it) || types.Implements(types.NewPointer(on), it) || types.Implements(on, it)
+			if !impl {
+				continue
+			}
+			if it.NumMethods() < bestN || (it.NumMethods() == bestN && name < best) {
+				best, bestN = name, it.NumMethods()
+			}
+		}
+		if best != "" {
+			res = pkg.Path() + "." + best + "." + method
+		}
+	}
+	e.canon[ck] = res
+	return res
 }
